@@ -140,6 +140,7 @@ for sid, (prop, what, needs, res) in sorted(M.items()):
                 confirmation=conf, ran="tools/confirm_mutant.sh (baseline suite with the patch; demonstration with and without it); tools/run_seeded.sh <id> <property> (the check against a scratch copy of /repo with the patch applied)",
                 detection=res)
     json.dump(meta, open(os.path.join(d, "meta.json"), "w"), indent=1)
-    rows.append("| %s | %s | %s | %s | %s |" % (sid, prop, what, needs, "; ".join("%s: %s" % kv for kv in sorted(res.items())) or "pending"))
+    esc = lambda x: x.replace("|", "\\|")
+    rows.append("| %s | %s | %s | %s | %s |" % (sid, prop, esc(what), esc(needs), esc("; ".join("%s: %s" % kv for kv in sorted(res.items())) or "pending")))
 print("| id | property | change | needs | checks |\n|----|----------|--------|-------|--------|")
 print("\n".join(rows))
